@@ -97,10 +97,14 @@ def install(I):
             if isinstance(xs, SymList):
                 if not I.truth(xs.length > 0, "np.min:nonempty"):
                     I.raise_("ValueError", "zero-size array to reduction operation", site="np.min")
+                mk = ("np.min" if is_min else "np.max", id(xs))
+                if mk in I.ps.memo:
+                    return I.ps.memo[mk]
                 r = I.ps.fresh("best", "Real")
                 rn = Num(r, (I.ps.fresh("bestf", "Bool"), True))
                 if xs.elem_pred is not None:
                     I.ps.assume(xs.elem_pred(I, rn))
+                I.ps.memo[mk] = rn
                 return rn
             if isinstance(xs, ListObj):
                 items = xs.items
